@@ -52,6 +52,10 @@ func genPacket(r *vlib.R, id uint16, c int, allowBig bool, big bool) []byte {
 		payload = append(payload, r.Bytes(61)...)
 		rep = vlib.Pick(r, []byte{63, 64, 65, 66, 127, 128, 129, 255})
 	}
+	if kind%10 == kWriteMsg {
+		// the Msg path: 12 + 269*rep bytes, around the drain buffer (8192), the small slab (16382) and 64k
+		rep = vlib.Pick(r, []byte{0, 1, 2, 15, 16, 30, 31, 32, 45, 60, 61, 120, 243, 244, 255})
+	}
 	p := append(h, kind, rep)
 	p = append(p, payload...)
 	if allowBig && r.Chance(1, 50) {
@@ -72,6 +76,9 @@ func genUDPCase(r *vlib.R, emit func(string)) int {
 	mode := "ring"
 	if inline {
 		mode = "inline"
+	}
+	if r.Chance(1, 3) {
+		mode = "w" + mode // wildcard bind: every reply leaves with the pktinfo of its own read
 	}
 	e(fmt.Sprintf("udp new %s %d %02x", mode, slabCap, vlib.Pick(r, []int{0xa5, 0xff, 0x5a, 0x01, 0x80})))
 	id := uint16(r.Intn(60000))
@@ -200,6 +207,11 @@ func genBoundaryStream(r *vlib.R, drain, delta int, idBase uint16) []byte {
 	if r.Chance(1, 2) {
 		add(kLease, 2, r.Bytes(5+r.Intn(30)))
 	}
+	if r.Chance(1, 2) {
+		// a Msg-path reply larger than the drain buffer behind replies that are still staged
+		add(kWriteMsg, vlib.Pick(r, []byte{31, 40, 60, 61}), r.Bytes(2))
+		add(kWrite, 1, r.Bytes(4))
+	}
 	return s
 }
 
@@ -287,6 +299,29 @@ func gen(r *vlib.R, n int, tier string, emit func(string)) {
 		emit(fmt.Sprintf("share walk %d %s", 250+r.Intn(100), strings.Join(ids, ",")))
 		n--
 	}
+	// 2e. decoded entry: escaped panics, then overlapping requests on the pooled chains
+	for i := 0; i < 2; i++ {
+		emit(fmt.Sprintf("pool escape %d %d", r.U64()%1000000, 4+r.Intn(5)))
+		n--
+	}
+	// 2d. failover (fallbackservers configured): every outcome mix of up to 3 fallback servers
+	fos := 14
+	if thorough {
+		fos = 60
+	}
+	for i := 0; i < fos; i++ {
+		k := r.Intn(4)
+		var ms []string
+		for j := 0; j < k; j++ {
+			ms = append(ms, vlib.Pick(r, []string{"sf", "sf", "sf", "ok", "nx", "dead"}))
+		}
+		modes := "-"
+		if k > 0 {
+			modes = strings.Join(ms, ",")
+		}
+		emit(fmt.Sprintf("fo run %d %s %d %s %s", 1+r.Intn(65535), vlib.B(r.Chance(5, 6)), vlib.Pick(r, []int{2, 2, 2, 2, 0, 3}), modes, vlib.Pick(r, []string{"udp", "tcp"})))
+		n--
+	}
 	// 2c. DoQ: several streams on one connection, handlers released in a scripted order
 	doqs := 5
 	if thorough {
@@ -329,8 +364,26 @@ func gen(r *vlib.R, n int, tier string, emit func(string)) {
 		emit(fmt.Sprintf("tsrv run %d %d %02x", r.U64()%1000000, 3+r.Intn(14), vlib.Pick(r, []int{0xa5, 0xff, 0x33})))
 		n -= 2
 	}
-	for _, m := range []string{"udp", "tcp"} {
-		emit("usrv cookie " + m)
+	for i := 0; i < 6; i++ {
+		pat := make([]byte, 2+r.Intn(8))
+		for j := range pat {
+			pat[j] = vlib.Pick(r, []byte{'c', 'n', 'n', 'p'})
+		}
+		if i < 2 {
+			pat = []byte("cn")
+		}
+		emit(fmt.Sprintf("usrv cookie %s %s", vlib.Pick(r, []string{"udp", "tcp"}), pat))
+		n--
+	}
+	for i := 0; i < 8; i++ {
+		var ops []string
+		for j, k := 0, 3+r.Intn(14); j < k; j++ {
+			ops = append(ops, vlib.Pick(r, []string{"p", "p", "p", "q", "q"})+fmt.Sprint(1+r.Intn(6)))
+			if r.Chance(1, 5) {
+				ops = append(ops, vlib.Pick(r, []string{"r", "v", "w"}))
+			}
+		}
+		emit("carrier run " + strings.Join(ops, ","))
 		n--
 	}
 	// 4a. stream bursts whose staged replies end within a few bytes of the drain-buffer size
